@@ -14,7 +14,9 @@ THEOREMS = [_T + n for n in (
     'C08_T82_collected', 'C08_T82_pushed', 'C08_regression_not_pushes_nothing', 'C08_regression_not', 'C08_witness_isnull',
     'C08_T83_limit_left', 'C08_useLimit_two_tables', 'C08_useLimit_group_by', 'C08_useLimit_third',
     'C08_witness_limit_inner', 'C08_plan_limit_inner', 'C08_witness_limit_group',
-    'C08_partial', 'C08_partial_left', 'C08_partial_limit', 'C08_partial_model', 'C08_not_full')]
+    'C08_partial', 'C08_partial_left', 'C08_partial_limit', 'C08_partial_model', 'C08_partial_model_inner', 'C08_partial_model_left_limit',
+    'C08_witness_limit_where', 'C08_T83_limit_left_left', 'C08_T81_third_table', 'C08_union_all_compositional', 'C08_union_distinct_compositional',
+    'C08_cte_compositional', 'C08_not_full')]
 ASSUME = [
     'SQL semantics of the theorems = MindsVerif.Sem (Int|Str|Null, 3-valued logic, list-of-rows tables, joins of every '
     'kind); validated against sqlite3 3.40 by the plan2 correspondence stream of this run (model evalQuery vs sqlite, '
@@ -27,8 +29,9 @@ ASSUME = [
     'the impl-level probe (typed query generator x small table contents) is search, not proof; all queries beyond the '
     'two-table fragment (3-way joins, IN/NOT IN subqueries, UNION, CTE, nested selects, GROUP BY, api integrations) are '
     'covered by the probe only',
-    'C08_partial_model (execPlan (plan q) db = evalQuery q db) covers inner joins without LIMIT (any WHERE tree); '
-    'LEFT join and LIMIT are proved at component level (C08_partial_left, C08_partial_limit) only',
+    'C08_partial_model (execPlan (plan q) db = evalQuery q db) covers every two-table query (all join kinds, any WHERE '
+    'tree, LIMIT) satisfying the decidable side condition Sem.planSound; the driver reports planSound per case and the '
+    'run checks that the REAL plan is right on every such case',
 ]
 
 COLIDX = {'id': 0, 'x': 1, 'y': 2}
@@ -107,10 +110,11 @@ def cte_sigs(q, steps, f):
     name, src_int, src_tab = m.group(1).lower(), m.group(2).lower(), m.group(3).lower()
     dn = g.CATALOGS[q.catalog].get('default_namespace')
     fetches = [s for s in steps if isinstance(s, S.FetchDataframeStep)]
-    # (a) whole statement sent to the source integration, qualifier stripped: the CTE now refers to itself
-    if name == src_tab and len(steps) == 1 and fetches and fetches[0].integration == src_int \
-            and 'circular reference' in (f.get('exec_error') or ''):
-        return ['cte-shadow/own-source-table-pushdown-circular']
+    # (a) whole statement sent to one integration with the qualifiers stripped: a real table named like the CTE (its own
+    #     source table -> circular reference, or another table of that integration) is now read as the CTE
+    if len(steps) == 1 and fetches and fetches[0].query is not None and getattr(fetches[0].query, 'cte', None) \
+            and re.search(r'\b%s\.%s\b' % (re.escape(fetches[0].integration), re.escape(name)), q.body, re.I):
+        return ['cte-shadow/pushdown-strips-qualifier']
     # (b) a QUALIFIED table `<default_namespace>.<cte name>` is taken for the CTE
     if dn and re.search(r'\b%s\.%s\b' % (re.escape(dn), re.escape(name)), q.body[m.end(1):], re.I) \
             and not any(s.integration == dn and re.search(r'\bFROM %s\b' % re.escape(name), str(s.query), re.I) for s in fetches):
@@ -272,9 +276,11 @@ def corr_plan2(chk, world, n):
     diverged, first = 0, None
     sem_cases = sem_div = 0
     sem_first = None
+    thm_cases = thm_div = 0
+    thm_first = None
     for (q, contents, grp, lim), line, o in zip(metas, lines, outs):
         chk.count(('plan2', line))
-        m = re.match(r'(.*) \| plan=(.*) \| query=(.*)$', o)
+        m = re.match(r'(.*) \| plan=(.*) \| query=(.*) \| sound=([01])$', o)
         why = None
         if not m:
             why = 'driver output: ' + o
@@ -287,7 +293,18 @@ def corr_plan2(chk, world, n):
                 steps = None
             if real != m.group(1):
                 why = 'skeleton: model %r real %r' % (m.group(1), real)
-            elif not grp and lim is None and steps is not None:
+            elif m.group(4) == '1' and steps is not None:
+                # the hypothesis of C08_partial_model holds: the REAL plan must return what the query returns
+                thm_cases += 1
+                world.load(contents)
+                try:
+                    bad = g.compare(q, world.reference(q.nolimit_sql), px.exec_plan(world, steps).rows)
+                except px.ExecError as e:
+                    bad = 'executor error %s' % e
+                if bad:
+                    thm_div += 1
+                    thm_first = thm_first or dict(sql=q.sql, line=line, why=bad)
+            if why is None and not grp and lim is None and steps is not None:
                 # semantics: model evalQuery vs sqlite, model execPlan vs the executor on the real plan
                 sem_cases += 1
                 world.load(contents)
@@ -310,6 +327,7 @@ def corr_plan2(chk, world, n):
             first = first or dict(sql=q.sql, line=line, why=why)
     chk.corr_result('plan2-skeleton', len(lines), diverged, first, dist)
     chk.corr_result('plan2-semantics(model vs sqlite, model vs executor on real plan)', sem_cases, sem_div, sem_first)
+    chk.corr_result('plan2-theorem(planSound q => real plan == query on the engine)', thm_cases, thm_div, thm_first)
     for (q, _, _, _), line, o in list(zip(metas, lines, outs))[:3]:
         chk.samples.append(dict(corr='plan2', sql=q.sql, driver_in=line, driver_out=o[:300]))
 
@@ -337,6 +355,8 @@ CASES = [
      {('int1', 'ta'): [(1, 0, 0)], ('int2', 'tc'): [(1, 2, 2), (2, 1, 1)]}),
     ('default', 'WITH ta AS (SELECT id, x, y FROM int1.ta WHERE x = 0) SELECT ta.x, ta.y FROM ta', [], '', None,
      {('int1', 'ta'): [(1, 0, 0), (2, 1, 1)]}),
+    ('project', 'WITH ta AS (SELECT id, x, y FROM int1.tb) SELECT ta.x, p.y FROM ta LEFT JOIN int1.ta AS p ON ta.id = p.id', [], '', None,
+     {('int1', 'ta'): [(1, 0, 1)], ('int1', 'tb'): [(1, 2, 2)]}),
     # multi-key ORDER BY + LIMIT over a LEFT JOIN, ties in the leading key across the limit boundary
     ('names', 'SELECT p.x, q.y FROM int1.ta AS p LEFT JOIN int2.tc AS q ON p.id = q.id', [0, 1], ' ORDER BY p.x, q.y', 1,
      {('int1', 'ta'): [(1, 0, 0), (2, 0, 0)], ('int2', 'tc'): [(1, 0, 2), (2, 0, 1)]}),
@@ -468,7 +488,7 @@ def run(chk):
     chk.samples.append(dict(theorem='C08_partial: (innerJoin on (L.filter pL) ((R.filter pR).filter (semi cR (distinct '
                                     '((L.filter pL).map cL))))).filter w = (innerJoin on L R).filter w  given ON => NULL-aware key '
                                     'equality and w => pL, w => pR'))
-    chk.samples.append(dict(theorem='C08_partial_model: q.kind = inner -> q.limit = none -> execPlan (plan q) db = evalQuery q db'))
+    chk.samples.append(dict(theorem='C08_partial_model: planSound q = true -> execPlan (plan q) db = evalQuery q db   (planSound = nullSafe && limitSound, all join kinds, any WHERE tree, LIMIT)'))
     chk.samples.append(dict(theorem='C08_witness_limit_inner: execPlan (plan limQ) limDB != evalQuery limQ limDB  (inner join LIMIT 1)'))
     return chk.finish(assumptions=ASSUME, extra=dict(notes=chk.notes[:20]))
 
